@@ -34,9 +34,7 @@ func init() {
 
 func checkC18(c *Ctx) {
 	p := c.P
-	checkReceiverDiscipline(c, "R8", func(n string) bool {
-		return n == "botRunner" || n == "actor" || n == "actions" || n == "tableEngineAdapter"
-	}, 30)
+	checkReceiverDiscipline(c, "R8", p.implementersIn("/actor", "Runner", "Actor", "Actions", "Adapter"), 30)
 	checkTableLookups(c, "R6", "GamePlayerIndex")
 	checkNoKnownNilErrorReturn(c, "R3", func(f *ssa.Function) bool { return inPkg(p, f, "/actor") }, 5)
 	ri := p.Iface("/actor", "Runner")
